@@ -83,7 +83,7 @@ Definition ex_alg : calg := alg_of
     (9, (false, true, Some 2, Some 2, false, false, false, 0, 11, 9, 0));
     (10, (true, true, Some 2, Some 2, true, true, true, 5, 10, 7, 6));
     (11, (true, true, Some 2, Some 2, false, false, false, 0, 11, 9, 8)) ]
-  [ (0, 2, 2, 9); (5, 2, 2, 7) ].
+  [ (0, 2, 2, 9); (5, 2, 2, 7) ] [].
 Definition ex_table : tstate :=
   {| cols := [(3%nat, 0)]; rows := [(2%nat, (1, [(1%nat, (0, 3)); (2%nat, (5, 0))]))] |}.
 Lemma ex_inhabited : WF ex_table /\ area_alg_ok ex_alg 1 0 2 1 (abs_t ex_table) /\
